@@ -1,7 +1,7 @@
-// harness c09_subframe_selection_never_exceeds_verbatim (property C09) failed in the solver on e91332e21a5a10f6e845e050ee2b2ef9da6fae3b+dirty
+// harness c09_subframe_selection_never_exceeds_verbatim (property C09) failed in the solver on 7135babf284f6366cb70352ebb4e4c3320fab254+dirty
 // failed checks: [{"description": "assertion failed: bits <= verbatim_bits + 16", "function": "coding::verif_kani::c09_subframe_selection_never_exceeds_verbatim", "file": "coding.rs", "line": "69"}]
 // the harness uses code stubs, so the violation is confirmed by the native property-level oracle
 // test `c09_oracle_noise_restricted_rice` in /verif/harness/native/coding.rs (fails = reproduced): True
 //@replay-harness: c09_subframe_selection_never_exceeds_verbatim
 //@replay-oracle: c09_oracle_noise_restricted_rice
-// panicked at /var/tmp/flacenc-verif-c09-ll02m3um/shadow/verif_harness/native/coding.rs:40:5: | frame larger than verbatim: Some((17032, 1111, "max_parameter=2 bitcount=false block=64"))
+// panicked at /var/tmp/flacenc-verif-c09-g3xd4rw9/shadow/verif_harness/native/coding.rs:40:5: | frame larger than verbatim: Some((17032, 1111, "max_parameter=2 bitcount=false block=64"))
